@@ -117,3 +117,29 @@ if __name__ == "__main__":
         print(json.dumps(run_mutant(prop, os.path.abspath(sys.argv[2])), indent=1))
     else:
         print(json.dumps(run_for_property(prop), indent=1))
+
+
+def run_patch_all(patch, config="default"):
+    """Applies one patch to a scratch copy and runs every property's rules: -> {prop: [violation keys]}"""
+    import engine
+    props = sorted(os.path.basename(p)[:-3] for p in glob.glob(os.path.join(HERE, "rules", "C*.py")))
+    known = {k["key"] for k in engine.load_known() if k.get("status") == "known"}
+    tmp, dst, err = make_scratch(patch)
+    if tmp is None:
+        return {"error": "patch does not apply: " + err}
+    try:
+        try:
+            d, info = extract.ensure_facts(config, repo=dst)
+        except extract.ExtractError as e:
+            return {"error": "does not compile: " + str(e)[-800:]}
+        out = {}
+        for p in props:
+            inst, errs = engine.run_rules(p, d, config)
+            v = sorted({i["key"] for i in inst if not i["ok"] and i["key"] not in known})
+            if errs:
+                v.append("CRASH " + errs[0][-300:])
+            if v:
+                out[p] = v
+        return out
+    finally:
+        shutil.rmtree(tmp, ignore_errors=True)
